@@ -132,13 +132,27 @@ def run(ctx):
                  dict(fmt="npz", eps=1, letters=A(opseq.KINDS_Q, ("mix",)),
                       depth=3)]
     opseq.run_bfs_check(ctx, TAGS, plans)
+    # write order within one filler session whose calls change the shard
+    # metadata back and forth and interleave two splits
+    from vf import wseq
+    from vf.checks.c10 import letters
+    deep = ctx.tier == "thorough"
+    wseq.run_plans(ctx, TAGS, [
+        dict(fmt="fb", eps=3, depth=5 if deep else 4,
+             letters=letters(("train",), ("ok",), ("-", "A", "B"))),
+        dict(fmt="npz", eps=2, depth=4 if deep else 3,
+             letters=letters(("train", "test"), ("ok",), ("A", "B"))),
+        dict(fmt="tfrec", eps=2, depth=3 if deep else 2,
+             letters=letters(("train",), ("ok",), ("-", "A", "B"))),
+    ])
     ctx.cov["explanation"] = (
         "differential: for every dataset of the family the shuffle=0 "
         "sequences of all interfaces, parallelism values, passes and "
         "handles must be identical and contain every session in write "
         "order; the unshuffled concurrent reader additionally under every "
         "completion order of its batches (cooperative executor, deviation "
-        "bound); session histories of depth 2 with interleaved splits")
+        "bound); session histories of depth 2 with interleaved splits; "
+        "write_example sequences with metadata changes back and forth")
     ctx.assumptions[:] = [
         "Rust and tf.data threads on the OS schedule here (parallel_map is "
         "explored exhaustively in C15)",
@@ -152,6 +166,9 @@ def replay(case):
         return opseq.replay_history(case, TAGS)
     if case.get("kind") == "controlled":
         return dataset_mc.replay(case)
+    if case.get("kind") == "wseq":
+        from vf import wseq
+        return wseq.replay_seq(case, TAGS)
     core.import_sedpack_quietly()
     r = order_case((case["name"], "quick", case.get("uuids")))
     return [m for _, _, m in r["bad"]]
